@@ -83,6 +83,7 @@ func runOne(e *hx.Env, r *hx.Report, prop, path string, mon Monitor, isCorpus bo
 // histories under several generator profiles, and (thorough) the small-scope exhaustive enumeration.
 func RunProperty(e *hx.Env, prop string, mon Monitor) *hx.Report {
 	r := hx.NewReport(prop, e.Tier, e.Seed, rule)
+	mon = WithReserved(mon)
 	if e.Replay != "" {
 		runOne(e, r, prop, e.Replay, mon, false)
 		return r
